@@ -25,6 +25,7 @@ type c20Store struct {
 	version map[string]int  // current content version per name
 	broken  map[string]bool // current content does not compile
 	failing map[string]bool // loader refuses the name
+	panics  map[string]bool // ... by panicking (the caller recovers), not by returning an error
 }
 
 type c20Loader struct {
@@ -51,8 +52,11 @@ func (l *c20Loader) Get(p string) (io.Reader, error) {
 	// like any loader that does not rewrite names - hands through as it is
 	file := path.Clean(p)
 	v, ok := l.store.version[file]
-	broken, failing := l.store.broken[file], l.store.failing[file]
+	broken, failing, panics := l.store.broken[file], l.store.failing[file], l.store.panics[file]
 	l.store.mu.Unlock()
+	if ok && failing && panics {
+		panic(fmt.Sprintf("c20Loader: panic while fetching %s", p))
+	}
 	if !ok || failing {
 		return nil, fmt.Errorf("c20Loader: %s unavailable", p)
 	}
@@ -175,7 +179,7 @@ func c20Model() porcupine.Model {
 				}
 				return true, s
 			case "setfail":
-				s.failing = in.arg == 1
+				s.failing = in.arg >= 1
 				return true, s
 			case "use":
 				// the name is used by other means (FromFile, include, extends, ssi, RenderTemplateFile): the cache does not notice
@@ -260,7 +264,7 @@ func (l *c20EmptyLoader) Get(p string) (io.Reader, error) {
 // variant (sets beyond the first): bit 0 = the set's templates come from its SECOND loader, bit 1 = the set has no
 // globals of its own (while the package-level pongo2.Globals, i.e. the default set's, do define g)
 func c20NewWorld(nsets int, delay func(), variant int) *c20World {
-	w := &c20World{store: &c20Store{version: map[string]int{}, broken: map[string]bool{}, failing: map[string]bool{}}, rec: &c20Recorder{ids: map[*pongo2.Template]int{}}}
+	w := &c20World{store: &c20Store{version: map[string]int{}, broken: map[string]bool{}, failing: map[string]bool{}, panics: map[string]bool{}}, rec: &c20Recorder{ids: map[*pongo2.Template]int{}}}
 	for _, n := range []string{"/a", "/b", "/c"} {
 		w.store.version[n] = 1
 	}
@@ -293,7 +297,16 @@ func (w *c20World) do(client int, in c20In) (c20Out, string) {
 	var tpl *pongo2.Template
 	switch in.kind {
 	case "fromcache":
-		t, err := w.sets[in.set].FromCache(in.spell())
+		var t *pongo2.Template
+		var err error
+		func() {
+			defer func() {
+				if r := recover(); r != nil { // a loader that panics: the caller recovers, the load has failed
+					err = fmt.Errorf("panic: %v", r)
+				}
+			}()
+			t, err = w.sets[in.set].FromCache(in.spell())
+		}()
 		if err != nil {
 			out.err = true
 		} else {
@@ -317,7 +330,8 @@ func (w *c20World) do(client int, in c20In) (c20Out, string) {
 		w.store.mu.Unlock()
 	case "setfail":
 		w.store.mu.Lock()
-		w.store.failing[in.name] = in.arg == 1
+		w.store.failing[in.name] = in.arg >= 1
+		w.store.panics[in.name] = in.arg == 2
 		w.store.mu.Unlock()
 	case "use":
 		l := w.loaders[in.set]
@@ -473,7 +487,7 @@ func c20RandOp(r *Rng, nsets int, names []string, concurrent bool) c20In {
 		case 0:
 			return c20In{kind: "setdebug", set: set, arg: r.Intn(2)}
 		case 1:
-			return c20In{kind: "setfail", name: file, arg: r.Intn(2)}
+			return c20In{kind: "setfail", name: file, arg: r.Intn(3)}
 		default:
 			v := 2 + r.Intn(50)
 			if r.Chance(20) {
@@ -696,7 +710,7 @@ func c20Run(c *C) {
 				case 0:
 					in = c20In{kind: "setdebug", set: r.Intn(nsets), arg: r.Intn(2)}
 				case 1:
-					in = c20In{kind: "setfail", name: files[r.Intn(len(files))], arg: r.Intn(2)}
+					in = c20In{kind: "setfail", name: files[r.Intn(len(files))], arg: r.Intn(3)}
 				default:
 					in = c20In{kind: "setcontent", name: files[r.Intn(len(files))], arg: 2 + ph*10 + r.Intn(9)}
 				}
